@@ -25,10 +25,10 @@
 (* the grid passed to model(wngrid=..), "clip" the grid computed on: what  *)
 (* Star.initialize / Contribution.prepare / Opacity.opacity receive), hKey *)
 (* what the key is, hWhat which quantity is kept, hStore whether only the  *)
-(* last miss is kept or every miss.  Sound (Hold*): no memo; keyed on the  *)
+(* last miss is kept or every miss.  Sound (HSound): no memo; keyed on the *)
 (* requested points together with the cutoff flag; at clip level keyed on  *)
 (* the points or on their end points (a clip is a contiguous part of the   *)
-(* native grid).  Every under-keyed memo must be REFUTED by the window      *)
+(* native grid).  Every under-keyed memo must be REFUTED by the window     *)
 (* alphabet of the configuration (one invariant per mutant): keyed on the  *)
 (* SIZE, on the FIRST point, at request level on the END POINTS (the clip  *)
 (* margin depends on the density of the request) or on the points WITHOUT  *)
